@@ -1019,10 +1019,21 @@ func genBlockHist(cfg *hx.Config, s *hx.Stream) {
 			root := vx.Window()
 			root.Fill(sentinel)
 			ox, oy := cfg.Rand.Intn(cols-9), cfg.Rand.Intn(rows-6)
-			win := root.New(ox, oy, ow+cfg.Rand.Intn(2), oh+cfg.Rand.Intn(2))
-			if cfg.Rand.Intn(3) == 0 {
-				win = root.New(ox/2, oy/2, -1, -1).New(ox-ox/2, oy-oy/2, ow+cfg.Rand.Intn(2), oh+cfg.Rand.Intn(2))
+			// the window: the image's size or a cell more; sometimes smaller (the image is cut)
+			ww, wh := ow+cfg.Rand.Intn(2), oh+cfg.Rand.Intn(2)
+			if cfg.Rand.Intn(6) == 0 {
+				if cfg.Rand.Intn(2) == 0 {
+					ww = cfg.Rand.Intn(ow + 1)
+				} else {
+					wh = cfg.Rand.Intn(oh + 1)
+				}
+				tags["window-cuts-image"] = true
 			}
+			win := root.New(ox, oy, ww, wh)
+			if cfg.Rand.Intn(3) == 0 {
+				win = root.New(ox/2, oy/2, -1, -1).New(ox-ox/2, oy-oy/2, ww, wh)
+			}
+			ww, wh = win.Size()
 			panicked, _ := hx.Catch(func() { obj.Draw(win) })
 			oc := 0
 			if panicked {
@@ -1044,8 +1055,8 @@ func genBlockHist(cfg *hx.Config, s *hx.Stream) {
 				}
 			}
 			ow, oh = obj.CellSize()
-			ops = append(ops, hx.Tuple(z(1), z(0), z(0), z(oc), z(ow), z(oh), hx.Tuple(z(0), z(0), hx.List(nil)), hx.List(drawn)))
-			opsJ = append(opsJ, map[string]interface{}{"op": "Draw", "outcome": oc, "cellsW": ow, "cellsH": oh, "window_origin": []int{ox, oy}, "drawn": dj})
+			ops = append(ops, hx.Tuple(z(1), z(ww), z(wh), z(oc), z(ow), z(oh), hx.Tuple(z(0), z(0), hx.List(nil)), hx.List(drawn)))
+			opsJ = append(opsJ, map[string]interface{}{"op": "Draw", "outcome": oc, "cellsW": ow, "cellsH": oh, "window_origin": []int{ox, oy}, "window_size": []int{ww, wh}, "drawn": dj})
 			if resizes >= 2 && !destroyed {
 				drawsAfterSecond++
 			}
@@ -1377,7 +1388,7 @@ func (g *gfxHist) show(ww, wh int) {
 	snap := g.vx.VerifGraphicsNext()
 	g.vx.Refresh()
 	toks := tokenize(g.fc.Take())
-	puts, sent, bad := 0, 0, false
+	puts, sent, dels, bad := 0, 0, 0, false
 	var payload strings.Builder
 	var sixelData *sixelPic
 	for i, t := range toks {
@@ -1437,6 +1448,7 @@ func (g *gfxHist) show(ww, wh int) {
 				}
 			case m["a"] == "d" && m["d"] == "i":
 				// the placement of the frame before is deleted on a refresh
+				dels++
 			default:
 				bad = true
 			}
@@ -1479,7 +1491,8 @@ func (g *gfxHist) show(ww, wh int) {
 	} else if placed == 1 {
 		g.tags["placed-without-resend"] = true
 	}
-	g.add(1, ww, wh, oc, 0, 0, placed, sent, dw, dh, same, "Show")
+	// (for a Show the field "resizedW" carries the number of placement deletions)
+	g.add(1, ww, wh, oc, dels, 0, placed, sent, dw, dh, same, "Show")
 	g.shows++
 }
 
@@ -1770,7 +1783,7 @@ func genQuant(cfg *hx.Config, direct *[]hx.DirectViolation) int {
 }
 
 // histModelReady: the Coq side of the blockhist / gfxhist streams is present
-const histModelReady = false
+const histModelReady = true
 
 func main() {
 	os.Unsetenv("COLORTERM")
@@ -1801,14 +1814,14 @@ func main() {
 	genPlacement(cfg, sx, &direct, true)
 
 	// streams blockhist / gfxhist: generators below are complete; enabled once their Coq side
-	// (blockhist_case, gfxhist_case in model/Image.v) exists
+	// (blockhist_case, gfxhist_case in model/ImageHist.v) exists
 	histStreams := []*hx.Stream{}
 	if histModelReady {
-		bh := hx.NewStream("blockhist", "model.Image", "blockhist_case", "c20_blockhist_mismatches", "c20_blockhist_violations")
+		bh := hx.NewStream("blockhist", "model.ImageHist", "blockhist_case", "c20_blockhist_mismatches", "c20_blockhist_violations")
 		bh.ShardMax = 150
 		genBlockHist(cfg, bh)
 
-		gh := hx.NewStream("gfxhist", "model.Image", "gfxhist_case", "c20_gfxhist_mismatches", "c20_gfxhist_violations")
+		gh := hx.NewStream("gfxhist", "model.ImageHist", "gfxhist_case", "c20_gfxhist_mismatches", "c20_gfxhist_violations")
 		gh.ShardMax = 300
 		gh.Known = "c20_gfxhist_known"
 		gh.KnownClass = "kitty-no-encoding"
@@ -1830,8 +1843,8 @@ func main() {
 		"pixels: block images of random NRGBA/RGBA/NRGBA64 pixels over every alpha level, drawn through Window.SetCell onto a sentinel screen and read back (all non-trivial); "+
 		"placement: a fixed corpus history (recorded finding resize-same-cells) and random add/keep/move/resize/drop/refresh histories of kitty images on a fake console, placement and image-data control sequences parsed from the output (non-trivial = contains a move, drop, resize or refresh); "+
 		"sixel: the same histories with Sixel images, sixel strings located in the output, marked cells compared with the drawn rectangles; "+
-		"blockhist: one half-block / full-block object per case on pictures with opaque, transparent and threshold-alpha bands, checkerboards and random alpha, and a history of Resize (fitting, growing, shrinking, equal, empty boxes), Draw (cells that changed on a sentinel screen) and Destroy, directed and random (non-trivial = a Draw after a second Resize); "+
-		"gfxhist: one KittyImage / Sixel per case and a history of Resize (random, equal, neighbouring, empty boxes; thin pictures that scale to an empty one), Show (Clear, Draw into a roomy / exact / too small window, Refresh; placement from graphicsNext, transmitted PNG / sixel data decoded and compared with resizeImage's picture) and Destroy (non-trivial = two Resizes and a Show); "+
+		"blockhist: one half-block / full-block object per case on pictures with opaque, transparent and threshold-alpha bands, checkerboards and random alpha, and a history of Resize (fitting, growing, shrinking, equal, empty boxes), Draw (into a window of the image's size, a cell more, or smaller so that the image is cut; the cells that changed on a sentinel screen, relative to the window) and Destroy, directed and random (non-trivial = a Draw after a second Resize); "+
+		"gfxhist: one KittyImage / Sixel per case and a history of Resize (random, equal, neighbouring, empty boxes; thin pictures that scale to an empty one), Show (Clear, Draw into a roomy / exact / too small window, Refresh; placement from graphicsNext, placement deletions counted, transmitted PNG / sixel data decoded and compared with resizeImage's picture) and Destroy (non-trivial = two Resizes and a Show); "+
 		"quantiser (direct checks, no model): octreequant.Paletted on images of at most 254 colours must reproduce every pixel; "+
 		"float: hardware float64(a)/float64(b)*float64(k) against the integer-only rounding model (non-trivial = inexact)",
 		append([]*hx.Stream{rs, cs, ps, pl, sx, fs}, histStreams...), extra, direct)
